@@ -146,20 +146,20 @@ func registerNetStubs() {
 		}
 		return "<symbolic mask>"
 	}
-	globalModels["net.v4InV6Prefix"] = func() value {
+	globalModels["net.v4InV6Prefix"] = func(i *interpreter, g *ssa.Global) value {
 		return bytesToValue([]byte{0, 0, 0, 0, 0, 0, 0, 0, 0, 0, 0xff, 0xff})
 	}
-	globalModels["net.IPv4zero"] = func() value { return bytesToValue(net.IPv4zero) }
-	globalModels["net.IPv4bcast"] = func() value { return bytesToValue(net.IPv4bcast) }
-	globalModels["net.IPv6zero"] = func() value { return bytesToValue(net.IPv6zero) }
-	globalModels["net.classAMask"] = func() value { return bytesToValue(net.IPv4Mask(0xff, 0, 0, 0)) }
-	globalModels["net.classBMask"] = func() value { return bytesToValue(net.IPv4Mask(0xff, 0xff, 0, 0)) }
-	globalModels["net.classCMask"] = func() value { return bytesToValue(net.IPv4Mask(0xff, 0xff, 0xff, 0)) }
+	globalModels["net.IPv4zero"] = func(i *interpreter, g *ssa.Global) value { return bytesToValue(net.IPv4zero) }
+	globalModels["net.IPv4bcast"] = func(i *interpreter, g *ssa.Global) value { return bytesToValue(net.IPv4bcast) }
+	globalModels["net.IPv6zero"] = func(i *interpreter, g *ssa.Global) value { return bytesToValue(net.IPv6zero) }
+	globalModels["net.classAMask"] = func(i *interpreter, g *ssa.Global) value { return bytesToValue(net.IPv4Mask(0xff, 0, 0, 0)) }
+	globalModels["net.classBMask"] = func(i *interpreter, g *ssa.Global) value { return bytesToValue(net.IPv4Mask(0xff, 0xff, 0, 0)) }
+	globalModels["net.classCMask"] = func(i *interpreter, g *ssa.Global) value { return bytesToValue(net.IPv4Mask(0xff, 0xff, 0xff, 0)) }
 }
 
 // globalModels gives values to package-level variables of packages whose
 // initialiser is not run.
-var globalModels = map[string]func() value{}
+var globalModels = map[string]func(i *interpreter, g *ssa.Global) value{}
 
 // symParseCIDR is the contract stub of net.ParseCIDR on an atom:
 // ok(a) => plen(a) <= 32 and the returned network is masked.
